@@ -422,41 +422,49 @@ pub proof fn lemma_rt_ec(v: EcV, tail: Seq<u8>)
     ensures
         d_ec(enc_ec(v) + tail) == Dec::Ok(ecb(v), tail),
 {
-    broadcast use seq_axioms::lemma_add_assoc;
     match v {
         EcV::If(x) => {
+            seq_axioms::lemma_add_assoc(enc_uint(0u64), enc_if(x), tail);
             lemma_rt_d_uint(0u64, enc_if(x) + tail);
             lemma_rt_if(x, tail);
         }
         EcV::Expression(x) => {
+            seq_axioms::lemma_add_assoc(enc_uint(1u64), enc_expression(x), tail);
             lemma_rt_d_uint(1u64, enc_expression(x) + tail);
             lemma_rt_expression(x, tail);
         }
         EcV::Script(x) => {
+            seq_axioms::lemma_add_assoc(enc_uint(2u64), enc_script(x), tail);
             lemma_rt_d_uint(2u64, enc_script(x) + tail);
             lemma_rt_script(x, tail);
         }
         EcV::Log(x) => {
+            seq_axioms::lemma_add_assoc(enc_uint(3u64), enc_log(x), tail);
             lemma_rt_d_uint(3u64, enc_log(x) + tail);
             lemma_rt_log(x, tail);
         }
         EcV::ForEach(x) => {
+            seq_axioms::lemma_add_assoc(enc_uint(4u64), enc_for_each(x), tail);
             lemma_rt_d_uint(4u64, enc_for_each(x) + tail);
             lemma_rt_for_each(x, tail);
         }
         EcV::Send(x) => {
+            seq_axioms::lemma_add_assoc(enc_uint(5u64), enc_send(x), tail);
             lemma_rt_d_uint(5u64, enc_send(x) + tail);
             lemma_rt_send(x, tail);
         }
         EcV::Raise(x) => {
+            seq_axioms::lemma_add_assoc(enc_uint(6u64), enc_raise(x), tail);
             lemma_rt_d_uint(6u64, enc_raise(x) + tail);
             lemma_rt_raise(x, tail);
         }
         EcV::Cancel(x) => {
+            seq_axioms::lemma_add_assoc(enc_uint(7u64), enc_cancel(x), tail);
             lemma_rt_d_uint(7u64, enc_cancel(x) + tail);
             lemma_rt_cancel(x, tail);
         }
         EcV::Assign(x) => {
+            seq_axioms::lemma_add_assoc(enc_uint(8u64), enc_assign(x), tail);
             lemma_rt_d_uint(8u64, enc_assign(x) + tail);
             lemma_rt_assign(x, tail);
         }
@@ -475,4 +483,195 @@ pub proof fn lemma_end_to_end_parameter(p: Parameter, tail: Seq<u8>, ok1: bool, 
         ok1 && rest1 == tail && pv(q) == pv(p),
 {
     lemma_rt_parameter(p, tail);
+}
+
+// ---- State: the decoder specification inverts the encoder specification -----------------------------------------
+// (FsmWriter::write_state is proved against enc_state; FsmReader::read_state is NOT proved against d_state, see DESIGN 0a.4)
+
+/// what survives of a state: `initial` only when the state has children; the <data> values are not part of the view
+pub open spec fn stv_persisted(s: State) -> StV {
+    StV {
+        id: s.id, doc_id: s.doc_id, name: sb(s.name), history_type: history_type_ordinal(s.history_type), is_parallel: s.is_parallel,
+        is_final: s.is_final, initial: if s.states@.len() != 0 { s.initial } else { 0u32 }, states: s.states@, onentry: s.onentry@, onexit: s.onexit@,
+        transitions: s.transitions.data@, invoke: invs_v(s.invoke.data@), history: s.history.data@, parent: s.parent,
+        donedata: match s.donedata { Some(d) => Some(ddv(d)), None => None },
+    }
+}
+
+pub open spec fn invoke_sizes_ok(x: Invoke) -> bool {
+    params_seq(x.params).len() <= u64::MAX && x.name_list@.len() <= u64::MAX
+}
+
+pub open spec fn state_sizes_ok(s: State, order: Seq<(String, DataArc)>) -> bool {
+    s.states@.len() <= u64::MAX && s.onentry@.len() <= u64::MAX && s.onexit@.len() <= u64::MAX && s.transitions.data@.len() <= u64::MAX
+        && s.invoke.data@.len() <= u64::MAX && s.history.data@.len() <= u64::MAX && order.len() <= u64::MAX
+        && (forall|i: int| 0 <= i < s.invoke.data@.len() ==> invoke_sizes_ok(#[trigger] s.invoke.data@[i]))
+        && (match s.donedata { Some(d) => params_seq(d.params).len() <= u64::MAX, None => true })
+}
+
+// serves: C05
+/// the flag word written by write_state tells the reader exactly which sections follow
+pub proof fn lemma_state_flag_bits(s: State)
+    ensures
+        ({
+            let fl = state_flags(s);
+            &&& ht_of(fl) == history_type_ordinal(s.history_type)
+            &&& ((fl & 0x04) != 0) == (s.onentry@.len() != 0)
+            &&& ((fl & 0x08) != 0) == (s.onexit@.len() != 0)
+            &&& ((fl & 0x10) != 0) == (s.states@.len() != 0)
+            &&& ((fl & 0x20) != 0) == s.is_final
+            &&& ((fl & 0x40) != 0) == s.is_parallel
+            &&& ((fl & 0x80) != 0) == s.donedata.is_some()
+            &&& ((fl & 0x100) != 0) == (s.invoke.data@.len() > 0)
+            &&& ((fl & 0x200) != 0) == (s.data@.len() != 0)
+            &&& ((fl & 0x400) != 0) == (s.history.data@.len() > 0)
+        }),
+{
+    reveal(state_flags);
+    let h: u16 = history_type_ordinal(s.history_type) as u16;
+    let a: u16 = if s.onentry@.len() == 0 { 0u16 } else { 0x04u16 };
+    let b: u16 = if s.onexit@.len() == 0 { 0u16 } else { 0x08u16 };
+    let c: u16 = if s.states@.len() != 0 { 0x10u16 } else { 0u16 };
+    let d: u16 = if s.is_final { 0x20u16 } else { 0u16 };
+    let e: u16 = if s.is_parallel { 0x40u16 } else { 0u16 };
+    let f: u16 = if s.donedata.is_some() { 0x80u16 } else { 0u16 };
+    let g: u16 = if s.invoke.data@.len() > 0 { 0x100u16 } else { 0u16 };
+    let i: u16 = if s.data@.len() != 0 { 0x200u16 } else { 0u16 };
+    let j: u16 = if s.history.data@.len() > 0 { 0x400u16 } else { 0u16 };
+    let w: u16 = h | a | b | c | d | e | f | g | i | j;
+    assert(w == h + a + b + c + d + e + f + g + i + j && (w & 3) == h && ((w & 0x04) != 0) == (a != 0) && ((w & 0x08) != 0) == (b != 0) && ((w & 0x10) != 0) == (c != 0)
+        && ((w & 0x20) != 0) == (d != 0) && ((w & 0x40) != 0) == (e != 0) && ((w & 0x80) != 0) == (f != 0) && ((w & 0x100) != 0) == (g != 0)
+        && ((w & 0x200) != 0) == (i != 0) && ((w & 0x400) != 0) == (j != 0)) by (bit_vector)
+        requires w == (h | a | b | c | d | e | f | g | i | j) && h <= 2 && (a == 0 || a == 0x04) && (b == 0 || b == 0x08) && (c == 0 || c == 0x10) && (d == 0 || d == 0x20)
+            && (e == 0 || e == 0x40) && (f == 0 || f == 0x80) && (g == 0 || g == 0x100) && (i == 0 || i == 0x200) && (j == 0 || j == 0x400);
+    assert(state_flags(s) == w);
+}
+
+// serves: C05
+pub proof fn lemma_rt_invoke_list(s: Seq<Invoke>, tail: Seq<u8>)
+    requires
+        invokes_ok(s),
+        forall|i: int| 0 <= i < s.len() ==> invoke_sizes_ok(#[trigger] s[i]),
+        s.len() <= u64::MAX,
+    ensures
+        d_list(enc_list(s, f_invoke()) + tail, fd_invoke()) == Dec::Ok(invs_v(s), tail),
+{
+    let view = |x: Invoke| invv(x);
+    let ok = |x: Invoke| invoke_ok(x) && invoke_sizes_ok(x);
+    assert forall|x: Invoke, t: Seq<u8>| ok(x) implies #[trigger] fd_invoke()(f_invoke()(x) + t) == Dec::Ok(view(x), t) by {
+        lemma_rt_invoke(x, t);
+    }
+    lemma_rt_list(s, tail, f_invoke(), fd_invoke(), view, ok);
+    assert(s.map_values(view) == invs_v(s));
+}
+
+// serves: C05
+pub proof fn lemma_rt_pairs(order: Seq<(String, DataArc)>, tail: Seq<u8>)
+    requires
+        pairs_ok(order),
+        order.len() <= u64::MAX,
+    ensures
+        consumed(d_list(enc_list(order, f_pair()) + tail, fd_pair())) == Dec::Ok((), tail),
+{
+    broadcast use seq_axioms::lemma_add_assoc;
+    let view = |p: (String, DataArc)| (sb(p.0), p.1);
+    let ok = |p: (String, DataArc)| pair_ok(p);
+    assert forall|x: (String, DataArc), t: Seq<u8>| ok(x) implies #[trigger] fd_pair()(f_pair()(x) + t) == Dec::Ok(view(x), t) by {
+        lemma_rt_d_str(x.0, enc_data_arc(x.1) + t);
+        trusted_data_codec::axiom_rt_data_arc(x.1, t);
+    }
+    lemma_rt_list(order, tail, f_pair(), fd_pair(), view, ok);
+}
+
+// serves: C05
+/// the state record as a right-nested sum of its sections (pure sequence algebra)
+pub proof fn lemma_state_layout(s: State, order: Seq<(String, DataArc)>, tail: Seq<u8>)
+    ensures
+        enc_state(s, order) + tail == enc_uint(s.id as u64) + (enc_uint(s.doc_id as u64) + (enc_str(sb(s.name)) + (enc_uint(state_flags(s) as u64)
+            + ((if s.states@.len() != 0 { enc_uint(s.initial as u64) } else { Seq::<u8>::empty() })
+            + ((if s.states@.len() != 0 { enc_list(s.states@, f_id()) } else { Seq::<u8>::empty() })
+            + ((if s.onentry@.len() != 0 { enc_list(s.onentry@, f_id()) } else { Seq::<u8>::empty() })
+            + ((if s.onexit@.len() != 0 { enc_list(s.onexit@, f_id()) } else { Seq::<u8>::empty() })
+            + (enc_list(s.transitions.data@, f_id())
+            + ((if s.invoke.data@.len() > 0 { enc_list(s.invoke.data@, f_invoke()) } else { Seq::<u8>::empty() })
+            + ((if s.history.data@.len() > 0 { enc_list(s.history.data@, f_id()) } else { Seq::<u8>::empty() })
+            + ((if s.data@.len() != 0 { enc_list(order, f_pair()) } else { Seq::<u8>::empty() })
+            + (enc_uint(s.parent as u64) + (enc_opt_done_data(s.donedata) + tail))))))))))))),
+{
+    broadcast use {seq_axioms::lemma_add_assoc, seq_axioms::lemma_add_empty};
+    assert(Seq::<u8>::empty() + Seq::<u8>::empty() == Seq::<u8>::empty());
+}
+
+// serves: C05
+/// the state record: the decoder specification applied to what write_state emits yields every persisted field back
+pub proof fn lemma_rt_state(s: State, order: Seq<(String, DataArc)>, tail: Seq<u8>)
+    requires
+        state_ok(s),
+        s.data@.len() != 0 ==> pairs_ok(order),
+        state_sizes_ok(s, order),
+    ensures
+        d_state(enc_state(s, order) + tail) == Dec::Ok(stv_persisted(s), tail),
+{
+    lemma_state_flag_bits(s);
+    lemma_state_layout(s, order, tail);
+    let fl = state_flags(s);
+    let e = Seq::<u8>::empty();
+    let e_dd = enc_opt_done_data(s.donedata);
+    let r13 = e_dd + tail;
+    let r12 = enc_uint(s.parent as u64) + r13;
+    let e_data = if s.data@.len() != 0 { enc_list(order, f_pair()) } else { e };
+    let r11 = e_data + r12;
+    let e_hi = if s.history.data@.len() > 0 { enc_list(s.history.data@, f_id()) } else { e };
+    let r10 = e_hi + r11;
+    let e_iv = if s.invoke.data@.len() > 0 { enc_list(s.invoke.data@, f_invoke()) } else { e };
+    let r9 = e_iv + r10;
+    let r8 = enc_list(s.transitions.data@, f_id()) + r9;
+    let e_ex = if s.onexit@.len() != 0 { enc_list(s.onexit@, f_id()) } else { e };
+    let r7 = e_ex + r8;
+    let e_en = if s.onentry@.len() != 0 { enc_list(s.onentry@, f_id()) } else { e };
+    let r6 = e_en + r7;
+    let e_sts = if s.states@.len() != 0 { enc_list(s.states@, f_id()) } else { e };
+    let r5 = e_sts + r6;
+    let e_ini = if s.states@.len() != 0 { enc_uint(s.initial as u64) } else { e };
+    let r4 = e_ini + r5;
+    let r3 = enc_uint(fl as u64) + r4;
+    let r2 = enc_str(sb(s.name)) + r3;
+    let r1 = enc_uint(s.doc_id as u64) + r2;
+    assert(enc_state(s, order) + tail == enc_uint(s.id as u64) + r1);
+    let v = stv_persisted(s);
+    lemma_rt_d_id(s.id, r1);
+    assert(d_state(enc_state(s, order) + tail) == d_st1(v.id, r1));
+    lemma_rt_d_id(s.doc_id, r2);
+    assert(d_st1(v.id, r1) == d_st2(v.id, v.doc_id, r2));
+    lemma_rt_d_str(s.name, r3);
+    assert(d_st2(v.id, v.doc_id, r2) == d_st3(v.id, v.doc_id, v.name, r3));
+    lemma_rt_d_uint(fl as u64, r4);
+    assert(d_st3(v.id, v.doc_id, v.name, r3) == d_st4(v.id, v.doc_id, v.name, fl, r4));
+    if s.states@.len() != 0 {
+        lemma_rt_d_id(s.initial, r5);
+        lemma_rt_id_list(s.states@, r6);
+    }
+    assert(d_st4(v.id, v.doc_id, v.name, fl, r4) == d_st5(v.id, v.doc_id, v.name, fl, v.initial, r5));
+    assert(d_st5(v.id, v.doc_id, v.name, fl, v.initial, r5) == d_st6(v.id, v.doc_id, v.name, fl, v.initial, v.states, r6)) by {
+        if s.states@.len() == 0 { lemma_len0_is_empty(s.states@); }
+    }
+    if s.onentry@.len() != 0 { lemma_rt_id_list(s.onentry@, r7); } else { lemma_len0_is_empty(s.onentry@); }
+    assert(d_st6(v.id, v.doc_id, v.name, fl, v.initial, v.states, r6) == d_st7(v.id, v.doc_id, v.name, fl, v.initial, v.states, v.onentry, r7));
+    if s.onexit@.len() != 0 { lemma_rt_id_list(s.onexit@, r8); } else { lemma_len0_is_empty(s.onexit@); }
+    assert(d_st7(v.id, v.doc_id, v.name, fl, v.initial, v.states, v.onentry, r7) == d_st8(v.id, v.doc_id, v.name, fl, v.initial, v.states, v.onentry, v.onexit, r8));
+    lemma_rt_id_list(s.transitions.data@, r9);
+    assert(d_st8(v.id, v.doc_id, v.name, fl, v.initial, v.states, v.onentry, v.onexit, r8) == d_st9(v.id, v.doc_id, v.name, fl, v.initial, v.states, v.onentry, v.onexit, v.transitions, r9));
+    if s.invoke.data@.len() > 0 { lemma_rt_invoke_list(s.invoke.data@, r10); } else { lemma_map_empty(s.invoke.data@, |i: Invoke| invv(i)); }
+    assert(d_st9(v.id, v.doc_id, v.name, fl, v.initial, v.states, v.onentry, v.onexit, v.transitions, r9) == d_st10(v.id, v.doc_id, v.name, fl, v.initial, v.states, v.onentry, v.onexit, v.transitions, v.invoke, r10));
+    if s.history.data@.len() > 0 { lemma_rt_id_list(s.history.data@, r11); } else { lemma_len0_is_empty(s.history.data@); }
+    assert(d_st10(v.id, v.doc_id, v.name, fl, v.initial, v.states, v.onentry, v.onexit, v.transitions, v.invoke, r10) == d_st11(v.id, v.doc_id, v.name, fl, v.initial, v.states, v.onentry, v.onexit, v.transitions, v.invoke, v.history, r11));
+    if s.data@.len() != 0 { lemma_rt_pairs(order, r12); }
+    assert(d_st11(v.id, v.doc_id, v.name, fl, v.initial, v.states, v.onentry, v.onexit, v.transitions, v.invoke, v.history, r11) == d_st12(v.id, v.doc_id, v.name, fl, v.initial, v.states, v.onentry, v.onexit, v.transitions, v.invoke, v.history, r12));
+    lemma_rt_d_id(s.parent, r13);
+    assert(d_st12(v.id, v.doc_id, v.name, fl, v.initial, v.states, v.onentry, v.onexit, v.transitions, v.invoke, v.history, r12) == d_st13(v.id, v.doc_id, v.name, fl, v.initial, v.states, v.onentry, v.onexit, v.transitions, v.invoke, v.history, v.parent, r13));
+    match s.donedata {
+        Some(d) => { lemma_rt_done_data(d, tail); }
+        None => {}
+    }
+    assert(d_st13(v.id, v.doc_id, v.name, fl, v.initial, v.states, v.onentry, v.onexit, v.transitions, v.invoke, v.history, v.parent, r13) == Dec::Ok(v, tail));
 }
